@@ -5,3 +5,5 @@ import PlcProofs.Props.C10
 #print axioms C10.unparenthesised_nested_unary_not_read_back
 #print axioms C10.fixed_point_of_roundtrip
 #print axioms C10.duration_split_exact
+#print axioms C10.duration_render_read
+#print axioms C10.tod_fraction_read
